@@ -240,7 +240,6 @@ class Repo:
             canonical_locals(tree, rel)
             from .normalize import canonical_forms
             tree = canonical_forms(tree)
-        self._normalise(rel, tree)
         inlined = []
         if '/tests/' not in rel:
             from .normalize import inline_new_helpers
@@ -248,6 +247,9 @@ class Repo:
                 inlined = inline_new_helpers(tree, rel)
             except RecursionError:
                 inlined = []
+        # (after the inlining, so that inlined bodies are folded / unrolled
+        # together with their new surroundings)
+        self._normalise(rel, tree)
         self.modules[rel] = Module(rel, full, src, tree)
         self.modules[rel].inlined_helpers = set(inlined)
 
